@@ -791,3 +791,112 @@ Theorem C20_due_sorted (q : list (Z * CtxId)) h :
   Sorted (fun a b => ctxid_leb a b = true) (due q h).
 Proof. unfold due. exact (QueryProofs.isort_sorted ctxid_leb QueryProofs.ctxid_leb_total _). Qed.
 
+
+(* ------------------------------------------------------------------ *)
+(* The hypotheses are satisfiable: a concrete multi-block history with a malformed response
+   (slash + refund inside h_respond) and an expiry with slashing (inside EndBlock).
+   Owner 10 binds providers 11 (deposit 240) and 12 (deposit 400) to service 1 at price 100;
+   minimum deposit max(100*2, 150) = 200, slash fraction 1/4.  Consumer 20 calls both with
+   timeout 3; the EndBlock of height 1 issues requests 0 (provider 11) and 1 (provider 12),
+   fee 100 each.  Provider 11 answers with an output that fails the schema; provider 12
+   never answers and its request expires in the EndBlock of height 4. *)
+
+Definition x20_cfg : Params := mkParams 100 2 150 (ONE / 10) (ONE / 4) 30 20 999 77.
+Definition x20_raw : RawPricing := mkRaw (100 * ONE) [] [].
+Definition x20_c : CtxId := (4242, 0).
+Definition x20_ops : list Op :=
+  [ ODefine 1 7 true;
+    OBind 1 11 (CBase 240) (Some x20_raw) 2 10 true;
+    OBind 1 12 (CBase 400) (Some x20_raw) 2 10 true;
+    OCall x20_c 1 [11; 12] 20 0 (CBase 500) 3 false false 0 0 true true;
+    OEndBlock 5;
+    ORespond (x20_c, 1, 1, 0) 11 0 9 false true;     (* output 9, not valid *)
+    OEndBlock 5;
+    OEndBlock 5;
+    OEndBlock 5 ].
+Definition x20_s0 : State := init 1 1000 [(10, 1000); (20, 1000)].
+Definition x20_at (n : nat) : State := run x20_cfg x20_s0 (firstn n x20_ops).
+
+Ltac k1_run_tac :=
+  cbn [k1_run]; repeat match goal with |- _ /\ _ => split end;
+  try exact I;
+  try (unfold wf_op, ctx_fresh, k1_in, k1_bound; repeat match goal with |- _ /\ _ => split end; zc).
+
+Example x20_cfg_wf : wf_cfg x20_cfg.
+Proof. unfold wf_cfg. repeat match goal with |- _ /\ _ => split end; zc. Qed.
+
+Example x20_s0_reachK1 : ReachK1 x20_cfg x20_s0.
+Proof. apply ReachK1_init; [lia|lia|wf_funding_tac]. Qed.
+
+(* the hypotheses of C20_no_panic_run hold for the history ... *)
+Example x20_k1_run : k1_run x20_cfg x20_s0 x20_ops.
+Proof. unfold x20_ops. k1_run_tac. Qed.
+
+(* ... so no step panics and every state of the history is ReachK1 (hence Reach, Inv, I_k1) *)
+Example x20_no_panic :
+  ~ In RPanic (outcomes x20_cfg x20_s0 x20_ops) /\ ReachK1 x20_cfg (run x20_cfg x20_s0 x20_ops).
+Proof. exact (C20_no_panic_run _ _ _ x20_cfg_wf x20_s0_reachK1 x20_k1_run). Qed.
+
+(* in fact every message is accepted *)
+Example x20_outcomes : outcomes x20_cfg x20_s0 x20_ops = repeat ROk 9.
+Proof. vm_compute. reflexivity. Qed.
+
+Lemma x20_at_reachK1 n : ReachK1 x20_cfg (x20_at n).
+Proof.
+  unfold x20_at.
+  assert (G : forall ops s, ReachK1 x20_cfg s -> k1_run x20_cfg s ops ->
+              ReachK1 x20_cfg (run x20_cfg s (firstn n ops))).
+  { induction n as [|n IH]; intros ops s Hr Hk; [exact Hr|].
+    destruct ops as [|o t]; [exact Hr|]. destruct Hk as (Ho & Hko & Ht).
+    cbn [firstn]. unfold run. cbn [fold_left]. apply IH; [now apply ReachK1_step|exact Ht]. }
+  apply G; [exact x20_s0_reachK1|exact x20_k1_run].
+Qed.
+
+(* the malformed response: the state before it satisfies the hypotheses of
+   C20_no_panic_msg, the handler slashes provider 11 below the minimum (240 -> 180, the
+   binding becomes unavailable) and refunds the fee to the consumer *)
+Example x20_malformed_response :
+  let s := x20_at 5 in
+  let o := ORespond (x20_c, 1, 1, 0) 11 0 9 false true in
+  Inv x20_cfg s /\ wf_op s o /\ k1_op x20_cfg s o
+  /\ (exists sa sb, slash x20_cfg s (x20_c, 1, 1, 0) = Ok sa
+                    /\ refund_fee sa (x20_c, 1, 1, 0) 20 100 = Some sb)
+  /\ get (1, 11) (binds (x20_at 6)) = Some (mkBinding 180 x20_raw 2 false 1005 10)
+  /\ bal (x20_at 5) (User 20) = 800 /\ bal (x20_at 6) (User 20) = 900
+  /\ bal (x20_at 5) Deposit = 640 /\ bal (x20_at 6) Deposit = 580.
+Proof.
+  cbv zeta. split; [apply Reach_Inv; [exact x20_cfg_wf|apply ReachK1_Reach, x20_at_reachK1]|].
+  split; [exact I|]. split; [exact I|]. split; [|vm_compute; repeat split].
+  eexists. eexists. split; vm_compute; reflexivity.
+Qed.
+
+(* the expiry: before the EndBlock of height 4 the context is due, not in super mode, and
+   request 1 is still active; C20_no_panic_endblock applies (k = 0) and the loop is clean;
+   the EndBlock slashes provider 12 (400 -> 300, stays available) and refunds the fee *)
+Example x20_expiry :
+  let s := x20_at 8 in
+  Inv x20_cfg s /\ height s = 4 /\ height s < HEIGHT_BOUND
+  /\ due (expq s) (height s) = [x20_c]
+  /\ c_super (ctx_or_zero s x20_c) = false
+  /\ active_rids s x20_c (c_counter (ctx_or_zero s x20_c)) = [(x20_c, 1, 1, 1)]
+  /\ expire_loop_clean x20_cfg (active_rids s x20_c (c_counter (ctx_or_zero s x20_c))) s
+  /\ get (1, 12) (binds (x20_at 9)) = Some (mkBinding 300 x20_raw 2 true TIME0 10)
+  /\ bal (x20_at 8) (User 20) = 900 /\ bal (x20_at 9) (User 20) = 1000
+  /\ bal (x20_at 9) Deposit = 480 /\ bal (x20_at 9) Escrow = 0
+  /\ supply (x20_at 9) = 2000 - 60 - 100.
+Proof.
+  cbv zeta.
+  assert (HI : Inv x20_cfg (x20_at 8))
+    by (apply Reach_Inv; [exact x20_cfg_wf|apply ReachK1_Reach, x20_at_reachK1]).
+  split; [exact HI|]. split; [vm_compute; reflexivity|]. split; [vm_compute; reflexivity|].
+  split; [vm_compute; reflexivity|]. split; [vm_compute; reflexivity|].
+  split; [vm_compute; reflexivity|].
+  split; [|vm_compute; repeat split].
+  assert (Hh : height (x20_at 8) < HEIGHT_BOUND) by (vm_compute; reflexivity).
+  assert (Hk : nth_error (due (expq (x20_at 8)) (height (x20_at 8))) 0 = Some x20_c)
+    by (vm_compute; reflexivity).
+  (* the kernel must not be asked to convert anything that mentions the concrete state *)
+  revert HI Hh Hk. generalize (x20_at 8). intros s HI Hh Hk.
+  pose proof (C20_no_panic_endblock x20_cfg s x20_cfg_wf HI Hh 0%nat x20_c Hk) as H.
+  cbv zeta in H. cbn [firstn fold_left] in H. exact (proj2 (proj2 H)).
+Qed.
